@@ -789,5 +789,6 @@ def gen_trace(rng, tier='quick', crit_names=(), arm=None, targets=()):
     if race:
         policy = dict(rng.choice(RACE_POLICIES))
     world['twins'] = twins
+    world['race'] = bool(race)
     return dict(property='C09', world=world, callers=callers, faults=faults, policy=policy, schedule=None,
                 sched_seed=rng.getrandbits(48))
